@@ -63,7 +63,9 @@ func runOne(ctx context.Context, sp solverSpec, file string, timeout time.Durati
 	return "error", text, secs
 }
 
-// solve races the portfolio; needAgree>1 asks for agreement between that many solvers (thorough tier).
+// solve: staged portfolio. Stage 1 runs cvc5 alone with a short limit (it decides most obligations
+// fastest); stage 2 races all three solvers with the full timeout. With all=true (thorough tier) every
+// solver must answer and a sat/unsat disagreement is reported.
 func solve(script string, dir string, name string, timeout time.Duration, modelTerms []string, all bool) solveResult {
 	file := filepath.Join(dir, sanitize(name)+".smt2")
 	body := script
@@ -72,6 +74,15 @@ func solve(script string, dir string, name string, timeout time.Duration, modelT
 	}
 	if err := os.WriteFile(file, []byte(body), 0o644); err != nil {
 		return solveResult{answer: "error", output: err.Error()}
+	}
+	res := solveResult{answer: "unknown", all: map[string]string{}}
+	if !all {
+		a, o, s := runOne(context.Background(), solvers[1], file, 3*time.Second)
+		res.all[solvers[1].name] = a
+		if a == "unsat" || a == "sat" {
+			res.answer, res.solver, res.secs, res.output = a, solvers[1].name, s, o
+			return res
+		}
 	}
 	ctx, cancel := context.WithCancel(context.Background())
 	defer cancel()
@@ -86,7 +97,6 @@ func solve(script string, dir string, name string, timeout time.Duration, modelT
 			ch <- r{a, o, sp.name, s}
 		}(sp)
 	}
-	res := solveResult{answer: "unknown", all: map[string]string{}}
 	var errs []string
 	got := 0
 	for got < len(solvers) {
@@ -96,19 +106,18 @@ func solve(script string, dir string, name string, timeout time.Duration, modelT
 		if x.ans == "error" {
 			errs = append(errs, x.solver+": "+firstLines(x.out, 3))
 		}
-		if (x.ans == "unsat" || x.ans == "sat") && (res.answer != "unsat" && res.answer != "sat") {
+		if (x.ans == "unsat" || x.ans == "sat") && (res.answer != "unsat" && res.answer != "sat" && res.answer != "disagree") {
 			res.answer, res.solver, res.secs, res.output = x.ans, x.solver, x.secs, x.out
 			if !all {
 				cancel()
 				break
 			}
-		} else if (x.ans == "unsat" || x.ans == "sat") && x.ans != res.answer {
+		} else if (x.ans == "unsat" || x.ans == "sat") && res.answer != "disagree" && x.ans != res.answer {
 			res.answer = "disagree"
 			res.output += "\n--- " + x.solver + " says " + x.ans
 		}
 	}
 	if res.answer == "unknown" {
-		// summarise
 		var parts []string
 		for k, v := range res.all {
 			parts = append(parts, k+"="+v)
@@ -143,7 +152,32 @@ func firstLines(s string, n int) string {
 func dischargeAll(obls []*Obligation, dir string, timeout time.Duration, tier string, workers int) {
 	var wg sync.WaitGroup
 	sem := make(chan struct{}, workers)
+	// grouped queries first: one query for all postconditions at a return
+	seen := map[*oblGroup]bool{}
 	for _, o := range obls {
+		gr := o.group
+		if gr == nil || seen[gr] || tier == "thorough" {
+			continue
+		}
+		seen[gr] = true
+		wg.Add(1)
+		sem <- struct{}{}
+		go func(gr *oblGroup) {
+			defer wg.Done()
+			defer func() { <-sem }()
+			r := solve(gr.script, dir, gr.name, timeout, nil, false)
+			if r.answer == "unsat" {
+				for _, m := range gr.members {
+					m.Status, m.Answer, m.Solver, m.Secs = "discharged", "unsat", r.solver+" (grouped)", r.secs/float64(len(gr.members))
+				}
+			}
+		}(gr)
+	}
+	wg.Wait()
+	for _, o := range obls {
+		if o.Status == "discharged" {
+			continue
+		}
 		if o.script == "TRIVIAL" || o.script == "" {
 			o.Status, o.Answer, o.Solver = "discharged", "unsat", "trivial"
 			continue
